@@ -37,14 +37,19 @@ CLAIMS = {
         design='7/C01', technique='Coq proof (structural induction over the expression tree; P-model) + translator-regenerated tables + model/implementation correspondence on result sequences',
         note=BASE_NOTE + " The stateful layer (de-duplication sets, lazy domain, result caches) is not in the proved model: it is covered by the correspondence only; the cache path is C05's."),
     'C02': dict(
-        text=("Machine-checked theorems over the P-model for any number of variables: C02_partition (the true rows of every node partition "
+        text=("Machine-checked theorems for any number of variables. Over the P-model: C02_partition (the true rows of every node partition "
               "the satisfying extensions of the incoming binding, the false rows the others), C02_all_selected (every satisfying assignment "
               "of the product is returned exactly once, every other never), C02_complete / C02_sound (any selection, any order: exactly the "
-              "projections of the satisfying assignments). Unbounded trees, domains, numbers of variables. Tie: exact row sequences "
-              "(all variables selected) or row sets (projections) of generated cases against the model on every run; cached configuration "
-              "and re-evaluation against the specification."),
-        design='7/C02', technique='Coq proof (partition/cover invariant by structural induction, counting argument) + correspondence',
-        note=BASE_NOTE + " Projection de-duplication (the seen sets) is outside the proved model (set-level tie only); selected EXPRESSIONS other than variables are covered by C19_selected (one variable) and by correspondence; the cache path is C05's."),
+              "projections of the satisfying assignments). Over the D-model (Dedup.v: the P-model PLUS the de-duplication of rows - the "
+              "per-operator seen sets of _is_duplicate_output_, keyed on the variables _required_variables_from_child_ reports, whose "
+              "tables the translator extracts from BinaryOperator / OR on every run): C02_dedup_cover (over ALL activations of a node in "
+              "one evaluation every assignment an activation should serve is covered, up to the variables the parent requires, by an emitted "
+              "row), C02_dedup_complete / C02_dedup_sound (so the de-duplicating evaluator returns exactly the projections of the "
+              "satisfying assignments), C02_required_variables (the facts about the extracted tables the induction needs). Unbounded "
+              "trees, domains, numbers of variables, activations. Tie: exact row SEQUENCES of generated cases - projections included, "
+              "against the D-model - on every run; cached configuration and re-evaluation against the specification."),
+        design='7/C02 + 12.7', technique='Coq proof (partition/cover invariant by structural induction, counting argument; cover-up-to-required-variables invariant over all activations for the de-duplicating evaluator, over translator-extracted requirement tables) + correspondence on exact row sequences',
+        note=BASE_NOTE + " The D-model covers comparisons, membership tests, expressions in condition position, and_/or_/not_ (any nesting); de-duplication inside nested queries and for_all, rows carrying flattened elements (identified by position in the implementation) and the cached replay path are outside it (set-level tie / C05). Selected EXPRESSIONS other than variables are covered by C19_selected (one variable), C02_row_values and by correspondence."),
     'C03': dict(
         text=("Machine-checked theorems over Generated.v (the inverse-operator table and the Not dispatch are extracted from symbolic.py by the "
               "fail-closed translator on every run): the table is total, every row is the TRUE inverse on all operand pairs and it is "
